@@ -38,11 +38,11 @@ RULE = (
 # --------------------------------------------------------------------------------------
 
 def _u16(n):
-    return n.to_bytes(2, 'big')
+    return min(n, 0xffff).to_bytes(2, 'big')      # (scaling shapes: a saturated length field keeps the shape well defined)
 
 
 def _u24(n):
-    return n.to_bytes(3, 'big')
+    return min(n, 0xffffff).to_bytes(3, 'big')
 
 
 def _u32(n):
